@@ -10,6 +10,7 @@ import (
 
 	"tunnox-core/internal/cloud/configs"
 	"tunnox-core/internal/cloud/models"
+	"tunnox-core/internal/cloud/stats"
 	"tunnox-core/internal/packet"
 	"tunnox-core/internal/protocol/session"
 	"tunnox-core/internal/protocol/session/tunnel"
@@ -110,7 +111,13 @@ type c02end struct {
 	rplan  c02plan
 	pol    c02policy
 	waitAttach bool
+	stallFor   time.Duration // fault: the reader stops reading for this long ...
+	stallAfter int           // ... once it has received this many bytes
+	srvw       *c02srv       // what the server holds: the server end of the link, observed
 
+	stalled     bool
+	stallStart  time.Duration
+	stallEnd    time.Duration
 	sent        int
 	recv        int
 	sentAll     bool
@@ -149,6 +156,114 @@ type c02run struct {
 	full      bool
 	doneCh    chan struct{}
 	counterOf func(e *c02end) int64
+	// fault: the cloud-control store stops answering when the tunnel starts to end
+	storeStallFor   time.Duration
+	storeStallFrom  time.Duration
+	storeStallUntil time.Duration
+	storeStalled    int
+}
+
+// c02srv is the transport object the server holds for one end: the server end
+// of the simnet link, recording when the server was first handed the end or a
+// failure of that transport (a Read/Write returned a non-timeout error) and when
+// it closed it.
+type c02srv struct {
+	*simnet.Conn
+	r        *c02run
+	toldAt   time.Duration
+	closedAt time.Duration
+}
+
+func (s *c02srv) note(err error) {
+	if err == nil || s.toldAt >= 0 {
+		return
+	}
+	if te, ok := err.(interface{ Timeout() bool }); ok && te.Timeout() {
+		return
+	}
+	s.toldAt = s.r.w.Now()
+}
+
+func (s *c02srv) Read(p []byte) (int, error) {
+	n, err := s.Conn.Read(p)
+	s.note(err)
+	return n, err
+}
+
+func (s *c02srv) Write(p []byte) (int, error) {
+	n, err := s.Conn.Write(p)
+	s.note(err)
+	return n, err
+}
+
+func (s *c02srv) Close() error {
+	if s.closedAt < 0 {
+		s.closedAt = s.r.w.Now()
+	}
+	return s.Conn.Close()
+}
+
+func (r *c02run) newSrv(c *simnet.Conn) *c02srv {
+	return &c02srv{Conn: c, r: r, toldAt: -1, closedAt: -1}
+}
+
+// serverTold is the first moment the server was handed the end/failure of either transport (-1: never).
+func (r *c02run) serverTold() time.Duration {
+	t := time.Duration(-1)
+	for _, e := range []*c02end{r.a, r.b} {
+		if e.srvw != nil && e.srvw.toldAt >= 0 && (t < 0 || e.srvw.toldAt < t) {
+			t = e.srvw.toldAt
+		}
+	}
+	return t
+}
+
+// storeGate is run by every cloud-control/store operation: during the outage
+// window the call does not return until the store answers again.
+func (r *c02run) storeGate() {
+	if until := r.storeStallUntil; until > 0 {
+		if now := r.w.Now(); now < until {
+			r.storeStalled++
+			r.w.Fault("store-stall")
+			r.w.Sleep(until - now)
+		}
+	}
+}
+
+// maybeStallStore starts the store outage once the tunnel is attached and its first end has closed.
+func (r *c02run) maybeStallStore() {
+	if r.storeStallFor > 0 && r.storeStallUntil == 0 && r.first != nil && r.attached {
+		r.storeStallFrom = r.w.Now()
+		r.storeStallUntil = r.storeStallFrom + r.storeStallFor
+	}
+}
+
+// c02cc is the component world's cloud control (tunnel.CloudControlAPI): one
+// mapping record behind the store gate.
+type c02cc struct {
+	r  *c02run
+	pm models.PortMapping
+}
+
+func (c *c02cc) GetPortMapping(id string) (*models.PortMapping, error) {
+	c.r.w.Yield("cc.get")
+	c.r.storeGate()
+	cp := c.pm
+	return &cp, nil
+}
+
+func (c *c02cc) UpdatePortMappingStats(id string, ts *stats.TrafficStats) error {
+	c.r.w.Yield("cc.update")
+	c.r.storeGate()
+	c.pm.TrafficStats = *ts
+	return nil
+}
+
+func (c *c02cc) GetClientPortMappings(clientID int64) ([]*models.PortMapping, error) {
+	c.r.w.Yield("cc.list")
+	c.r.storeGate()
+	cp := c.pm
+	return []*models.PortMapping{&cp}, nil
 }
 
 func c02Payload(n int, tag byte) []byte {
@@ -258,17 +373,22 @@ func init() {
 			"the segmentation law of each of the four link directions (all/1-byte/1-7/MTU/cuts around 32 KiB/mixed), link buffer capacity (unbounded .. 100 B, back-pressure), when the target attaches (0 .. 25 s after the source, before or after Start, before or after the source's first bytes), " +
 			"and a closing policy per end (graceful = after everything was sent and received (1/2) | close, reset or half-close after the last write | close or reset after k bytes written | close or reset after k bytes received | close or reset at time t). " +
 			"3 of 4 runs use the component world (one real tunnel.Bridge between two simnet links wrapped the way the server wraps tunnel connections, lifecycle body run by a harness task); 1 of 4 uses a fully wired server node where both ends log in as tunnel connections and send TunnelOpen through the real adapter read loop (real startSourceBridge/handleExistingBridge/runBridgeLifecycle, mapping with the drawn BandwidthLimit in the real cloud control). " +
+			"Faults: per end (1/3) a consumer stall - the reader stops reading for 90 s or 400 s after k received bytes, usually with a bounded link towards it (the server's write to it blocks) and a trickling writer on the same end; " +
+			"(2/5) a cloud-control/store outage of 120 s or 500 s that begins when the first end closes on an attached tunnel (component world: half of the runs have a cloud-control double behind the outage gate; node world: every storage operation of the node). " +
 			"The two copy goroutines, the lifecycle, SetTargetConnection and the harness peers are interleaved at statement granularity in bridge*.go/server_bridge.go. " +
 			"Non-trivial: bytes of both directions were in flight at the same time, or a limit > 0 paced at least one delivered byte, or the first end to close did so while bytes written by its peer were undelivered to it, or reset/half-closed; distinct = distinct schedule hashes of such runs.",
 		Real: []string{"internal/protocol/session/tunnel Bridge (NewBridge, SetTargetConnection, Start, CopyWithControl, dynamicSourceWriter, Close, traffic counters)", "golang.org/x/time/rate Limiter on the simulated clock",
 			"internal/protocol/session TCPTunnelConnection (CreateTunnelConnection)", "internal/stream default factory StreamProcessor", "internal/utils/iocopy readWriteCloser adapter", "internal/core/dispose",
 			"node mode: SessionManager handleTunnelOpen/startSourceBridge/handleExistingBridge/runBridgeLifecycle, BaseAdapter read loop and stream-mode switch, ServerAuthHandler, ServerTunnelHandler + ConnectionCodeService.ValidateMapping, BuiltinCloudControl port-mapping service and periodic traffic report, TunnelRoutingTable, memory storage"},
 		Stub: []string{"transports: simnet links (ordered, loss-free until closed/reset; Close of an end lets the peer drain what was already written)", "clients: scripted writer/reader tasks (node mode: simnode scripted wire-protocol client for login + TunnelOpen)",
-			"component mode: SessionManager.runBridgeLifecycle's body (Start, Close, forget) is run by a harness task, the bridge map is a harness flag, cloud control is nil (no traffic report)",
+			"the server-side end of each link is handed to the server through a recording wrapper (first non-timeout error returned to the server, time of Close)",
+			"component mode: SessionManager.runBridgeLifecycle's body (Start, Close, forget) is run by a harness task, the bridge map is a harness flag, cloud control is nil or a one-record double (tunnel.CloudControlAPI) behind the outage gate",
 			"node mode: no cross-node listener/pool, the target client is not driven by the server's TunnelOpen command but attaches by script"},
 		Assumptions: []string{
 			"an end 'closed early' when, at the moment of its first close/half-close, it had received fewer bytes than its peer wrote in the whole run; a reset is a failure and voids completeness",
 			"'bounded time' for closure = 35 s of simulated time after (the close and both ends attached) plus 1.5x the time the configured limit needs for the bytes still undelivered at that moment (+64 KiB); readers stop dawdling after the first close; 'forgets' = Bridge.Start returned / the tunnel id left SessionManager's bridge map (polled every 0.5 s, 1 s slack) and the routing record is gone, both server-side transports closed",
+			"closure is a matter between the two ends and the server: the server must close both transports, and a reading peer must see the end, within the bound even while the cloud-control store does not answer; only 'forgets' (bookkeeping) may wait until the store answers again (+ bound)",
+			"a consumer that is not reading is a fault: if such a stall is in progress after the close, the closure clock starts when the server was first handed the end/failure of a transport (a Read/Write on it returned a non-timeout error) or when the last stall ended, whichever is first; the stalled end itself must see the end within the bound after it resumes reading",
 			"a bandwidth limit of L bytes/s means an end never has received more than L*t + 4*L + 64 KiB bytes at simulated time t (very loose: only gross non-enforcement is flagged)",
 			"bytes an end writes before the other end is attached belong to the tunnel (the server acknowledged the open before the target attaches)",
 			"Bridge.GetBytesSent/GetBytesReceived count bytes handed to the target/source transport: never ahead of it, equal once the bridge has ended",
@@ -366,8 +486,42 @@ func c02Run(w *simrt.World, tier string) {
 		b.waitAttach = true
 	}
 	r.full = full
+	// faults: a consumer that stops reading for longer than the closure bound (with a bounded link towards it the
+	// server's write to it blocks), and a cloud-control/store outage that begins when the tunnel starts to end
+	stallSet := []time.Duration{0, 0, 0, 0, 90*time.Second + 11*time.Millisecond, 400*time.Second + 17*time.Millisecond}
+	for _, e := range []*c02end{a, b} {
+		cfg := &cfgA
+		if e == b {
+			cfg = &cfgB
+		}
+		e.stallFor = stallSet[c.Intn(len(stallSet), e.name+".stall")]
+		if e.stallFor == 0 {
+			continue
+		}
+		switch c.Intn(3, e.name+".stall.at") {
+		case 1:
+			e.stallAfter = c.Intn(len(e.expect)+1, e.name+".stall.k")
+		case 2:
+			e.stallAfter = 1 + c.Intn(4096, e.name+".stall.k")
+			if e.stallAfter > len(e.expect) {
+				e.stallAfter = len(e.expect)
+			}
+		}
+		if c.Intn(4, e.name+".stall.cap") != 0 {
+			cfg.Capacity = []int{4096, 65536, 100}[c.Intn(3, e.name+".stall.capv")]
+			if big := len(e.send) + len(e.expect); cfg.Capacity < big/2048 {
+				cfg.Capacity = big/2048 + 1
+			}
+		}
+		if c.Intn(2, e.name+".stall.trickle") == 1 {
+			e.wplan = c02plan{sizes: []int{len(e.send)/40 + 1}, delays: []time.Duration{time.Second}}
+		}
+	}
+	r.storeStallFor = []time.Duration{0, 0, 0, 120*time.Second + 7*time.Millisecond, 500*time.Second + 3*time.Millisecond}[c.Intn(5, "store.stall")]
+	useCC := full || c.Intn(2, "cc") == 1
+	defer func() { r.storeStallUntil = 0 }()
 
-	horizon := 600*time.Second + attachDelay + a.pol.d + b.pol.d + 3*xfer +
+	horizon := 600*time.Second + attachDelay + a.pol.d + b.pol.d + 3*xfer + a.stallFor + b.stallFor + r.storeStallFor +
 		a.wplan.delayTotal() + a.rplan.delayTotal() + b.wplan.delayTotal() + b.rplan.delayTotal()
 
 	limClass := "nolimit"
@@ -379,8 +533,8 @@ func c02Run(w *simrt.World, tier string) {
 	}
 	w.Sample(fmt.Sprintf("limit=%d lenA=%d lenB=%d A{w=%v/%v r=%v/%v pol=%v wait=%v srvlaw=%s clilaw=%s cap=%d} B{w=%v/%v r=%v/%v pol=%v wait=%v srvlaw=%s clilaw=%s cap=%d} attach=%v beforeStart=%v",
 		r.limit, lenA, lenB, a.wplan.sizes, a.wplan.delays, a.rplan.sizes, a.rplan.delays, a.pol, a.waitAttach, simnet.LawNames[cfgA.LawAB], simnet.LawNames[cfgA.LawBA], cfgA.Capacity,
-		b.wplan.sizes, b.wplan.delays, b.rplan.sizes, b.rplan.delays, b.pol, b.waitAttach, simnet.LawNames[cfgB.LawAB], simnet.LawNames[cfgB.LawBA], cfgB.Capacity, attachDelay, attachBeforeStart) + fmt.Sprintf(" full=%v", full))
-	w.State(fmt.Sprintf("%v/%s/A%d.%d/B%d.%d/%s%s/att%v", full, limClass, a.pol.kind, a.pol.act, b.pol.kind, b.pol.act, simnet.LawNames[cfgA.LawAB], simnet.LawNames[cfgB.LawAB], attachDelay > 0))
+		b.wplan.sizes, b.wplan.delays, b.rplan.sizes, b.rplan.delays, b.pol, b.waitAttach, simnet.LawNames[cfgB.LawAB], simnet.LawNames[cfgB.LawBA], cfgB.Capacity, attachDelay, attachBeforeStart) + fmt.Sprintf(" full=%v stallA=%v@%d stallB=%v@%d storeStall=%v cc=%v", full, a.stallFor, a.stallAfter, b.stallFor, b.stallAfter, r.storeStallFor, useCC))
+	w.State(fmt.Sprintf("%v/%v%v%v/%s/A%d.%d/B%d.%d/%s%s/att%v", full, a.stallFor > 0, b.stallFor > 0, r.storeStallFor > 0 && useCC, limClass, a.pol.kind, a.pol.act, b.pol.kind, b.pol.act, simnet.LawNames[cfgA.LawAB], simnet.LawNames[cfgB.LawAB], attachDelay > 0))
 
 	mode := "bridge"
 	if full {
@@ -402,21 +556,28 @@ func c02Run(w *simrt.World, tier string) {
 		a.conn, a.srv = simnet.NewLink(w, cfgA)
 		b.conn, b.srv = simnet.NewLink(w, cfgB)
 		const mappingID = "pm-c02"
+		a.srvw, b.srvw = r.newSrv(a.srv), r.newSrv(b.srv)
 		factory := stream.NewDefaultStreamFactory(w.Ctx)
-		spA := factory.CreateStreamProcessor(a.srv, a.srv)
-		spB := factory.CreateStreamProcessor(b.srv, b.srv)
-		tcA := session.CreateTunnelConnection(a.srv.RemoteAddr().String(), a.srv, spA, 1001, mappingID, tunnelID)
-		tcB := session.CreateTunnelConnection("conn-B", b.srv, spB, 1002, mappingID, tunnelID)
-		r.br = tunnel.NewBridge(w.Ctx, &tunnel.BridgeConfig{
+		spA := factory.CreateStreamProcessor(a.srvw, a.srvw)
+		spB := factory.CreateStreamProcessor(b.srvw, b.srvw)
+		tcA := session.CreateTunnelConnection(a.srv.RemoteAddr().String(), a.srvw, spA, 1001, mappingID, tunnelID)
+		tcB := session.CreateTunnelConnection("conn-B", b.srvw, spB, 1002, mappingID, tunnelID)
+		bcfg := &tunnel.BridgeConfig{
 			TunnelID: tunnelID, MappingID: mappingID,
-			SourceTunnelConn: tcA, SourceConn: a.srv, SourceStream: spA,
+			SourceTunnelConn: tcA, SourceConn: a.srvw, SourceStream: spA,
 			BandwidthLimit: r.limit,
-		})
+		}
+		if useCC {
+			bcfg.CloudControl = &c02cc{r: r, pm: models.PortMapping{ID: mappingID, ListenClientID: 1001, TargetClientID: 1002, Status: models.MappingStatusActive}}
+			w.Probe("cloud-control.stub")
+		}
+		r.br = tunnel.NewBridge(w.Ctx, bcfg)
 		a.conn.SetDeadline(dl)
 		b.conn.SetDeadline(dl)
 		if attachBeforeStart {
 			r.br.SetTargetConnection(tcB)
 			r.attached, r.attachedAt = true, w.Now()
+			r.maybeStallStore()
 			close(r.attachedCh)
 			w.Probe("attach.before-start")
 		}
@@ -434,6 +595,7 @@ func c02Run(w *simrt.World, tier string) {
 				}
 				r.br.SetTargetConnection(tcB)
 				r.attached, r.attachedAt = true, w.Now()
+				r.maybeStallStore()
 				close(r.attachedCh)
 			})
 		}
@@ -441,6 +603,7 @@ func c02Run(w *simrt.World, tier string) {
 		// ---- node world: a wired server node; both ends enter through the real
 		// adapter read loop (tunnel-type handshake, then TunnelOpen)
 		st := simstore.New(w, "n1", simstore.NewMemory(w))
+		st.Sync = r.storeGate
 		var err error
 		w.Quiet(func() { node, err = simnode.New(w, st, simnode.Config{NodeID: "n1"}) })
 		if err != nil {
@@ -464,7 +627,12 @@ func c02Run(w *simrt.World, tier string) {
 			return
 		}
 		open := func(e *c02end, ctl *simnode.Client, cfg simnet.LinkConfig) string {
-			cl := node.Connect(e.name, cfg.AddrA, cfg)
+			// node.Connect, with the server end handed to the adapter through the observing wrapper
+			cfg.NameA, cfg.NameB = e.name, e.name+"@n1"
+			la, lb := simnet.NewLink(w, cfg)
+			e.srvw = r.newSrv(lb)
+			node.Adapter.Serve(e.srvw)
+			cl := &simnode.Client{W: w, Name: e.name, Conn: la, Srv: lb, SP: stream.NewStreamProcessor(la, la, w.Ctx)}
 			if resp, ok := cl.Login(ctl.ID, ctl.Secret, "tunnel"); !ok || !resp.Success {
 				return fmt.Sprintf("tunnel-type login failed (ok=%v resp=%+v)", ok, resp)
 			}
@@ -509,7 +677,12 @@ func c02Run(w *simrt.World, tier string) {
 			if why := open(b, ctlB, cfgB); why != "" {
 				w.Violationf("C02:harness:target-open", "target could not attach %v after the source: %s", attachDelay, why)
 			} else {
+				// the acknowledgement is written before SetTargetConnection
+				for i := 0; i < 5000 && !r.br.IsTargetReady(); i++ {
+					w.Sleep(time.Millisecond)
+				}
 				r.attached, r.attachedAt = true, w.Now()
+				r.maybeStallStore()
 			}
 			close(r.attachedCh)
 		})
@@ -561,25 +734,66 @@ func c02Run(w *simrt.World, tier string) {
 		if r.attachedAt > base {
 			base = r.attachedAt
 		}
+		// A consumer that is not reading after that moment is a fault of its own: the clock starts when the
+		// server was handed the end/failure of a transport, or when the last such stall ended, whichever is first.
+		lastStall := time.Duration(-1)
+		for _, e := range []*c02end{a, b} {
+			if e.stalled && e.stallEnd > base && (e != x || x.half) && e.stallEnd > lastStall {
+				lastStall = e.stallEnd
+			}
+		}
+		told := r.serverTold()
+		if lastStall > base {
+			w.Probe("closure.during-consumer-stall")
+			cand := lastStall
+			if told >= 0 && told < cand {
+				cand = told
+				w.Probe("closure.server-told-during-consumer-stall")
+			}
+			if cand > base {
+				base = cand
+			}
+		}
 		bound := c02CloseBound
 		if r.limit > 0 {
 			bound += time.Duration(1.5 * float64(r.remainAtClose+65536) / float64(r.limit) * float64(time.Second))
 		}
 		deadline := base + bound
 		kind := c02ActNames[x.act]
-		if !(y.closedAt >= 0 && y.closedAt <= deadline) {
+		ctxf := func() string {
+			return fmt.Sprintf("%s did %s at %v (attached at %v; server first told at %v; stalls A=%v..%v B=%v..%v; store outage %v..%v hit %d calls; %d bytes undelivered, limit %d)",
+			x.name, kind, x.closedAt, r.attachedAt, told, a.stallStart, a.stallEnd, b.stallStart, b.stallEnd, r.storeStallFrom, r.storeStallUntil, r.storeStalled, r.remainAtClose, r.limit)
+		}
+		// the other end observes closure (it can only do so once it reads again)
+		yDeadline := deadline
+		if y.stalled && y.stallEnd > base {
+			yDeadline = y.stallEnd + bound
+		}
+		if !(y.closedAt >= 0 && y.closedAt <= yDeadline) {
 			if !y.sawEnd {
-				w.Violationf("C02:closure:peer-never-notified:"+kind, "%s did %s at %v (attached at %v); %s never saw its Read end (timed out=%v at horizon %v); received %d/%d", x.name, kind, x.closedAt, r.attachedAt, y.name, y.timedOut, horizon, y.recv, len(y.expect))
-			} else if y.sawEndAt > deadline {
-				w.Violationf("C02:closure:peer-notified-late:"+kind, "%s did %s at %v (attached at %v, %d bytes undelivered, limit %d): %s saw the end only at %v > %v", x.name, kind, x.closedAt, r.attachedAt, r.remainAtClose, r.limit, y.name, y.sawEndAt, deadline)
+				w.Violationf("C02:closure:peer-never-notified:"+kind, "%s: %s never saw its Read end (timed out=%v at horizon %v); received %d/%d", ctxf(), y.name, y.timedOut, horizon, y.recv, len(y.expect))
+			} else if y.sawEndAt > yDeadline {
+				w.Violationf("C02:closure:peer-notified-late:"+kind, "%s: %s saw the end only at %v > %v", ctxf(), y.name, y.sawEndAt, yDeadline)
 			}
 		}
-		// the server forgets the tunnel
-		for !lifeDone() && w.Now() <= deadline+time.Second {
+		// the server closes both transports (whether or not anybody reads, whether or not the store answers) and
+		// forgets the tunnel (bookkeeping may have to wait for the store)
+		fDeadline := deadline
+		if r.storeStallUntil > base {
+			fDeadline = r.storeStallUntil + bound
+		}
+		transportsClosed := func() bool { return a.srvw.closedAt >= 0 && b.srvw.closedAt >= 0 }
+		for !(lifeDone() && transportsClosed()) && w.Now() <= fDeadline+time.Second {
 			w.Sleep(500 * time.Millisecond)
 		}
-		if !r.forgotten || r.forgotAt > deadline+time.Second {
-			w.Violationf("C02:forget:bridge-still-running:"+kind, "%s did %s at %v (attached at %v) but Bridge.Start had not returned by %v (forgotten=%v at %v)", x.name, kind, x.closedAt, r.attachedAt, deadline, r.forgotten, r.forgotAt)
+		for _, e := range []*c02end{a, b} {
+			if e.srvw.closedAt < 0 || e.srvw.closedAt > deadline {
+				w.Violationf("C02:closure:server-transport-open:"+kind, "%s: the server had not closed %s's transport by %v (closed at %v)", ctxf(), e.name, deadline, e.srvw.closedAt)
+				break
+			}
+		}
+		if !r.forgotten || r.forgotAt > fDeadline+time.Second {
+			w.Violationf("C02:forget:bridge-still-running:"+kind, "%s: Bridge.Start had not returned / the tunnel was still registered at %v (forgotten=%v at %v)", ctxf(), fDeadline, r.forgotten, r.forgotAt)
 		}
 	}
 
@@ -620,7 +834,11 @@ func c02Run(w *simrt.World, tier string) {
 			e.conn.Close()
 		}
 	}
-	for i := 0; i < 80 && !lifeDone(); i++ {
+	waitUntil := w.Now() + 40*time.Second
+	if r.storeStallUntil+40*time.Second > waitUntil {
+		waitUntil = r.storeStallUntil + 40*time.Second
+	}
+	for !lifeDone() && w.Now() < waitUntil {
 		w.Sleep(500 * time.Millisecond)
 	}
 	if lifeDone() {
@@ -628,6 +846,11 @@ func c02Run(w *simrt.World, tier string) {
 			w.Violationf("C02:forget:transport-left-open", "the bridge has ended but server-side transports are still open: srvA closed=%v srvB closed=%v", a.srv.Closed(), b.srv.Closed())
 		}
 		if full {
+			// runBridgeLifecycle removes the routing record right after the map entry (a store call)
+			if d := r.storeStallUntil - w.Now(); d > 0 {
+				w.Sleep(d)
+			}
+			w.Sleep(time.Second)
 			if _, err := node.Routing.LookupWaitingTunnel(w.Ctx, tunnelID); err == nil {
 				w.Violationf("C02:forget:routing-record-left", "the bridge has left the session's map but the routing table still resolves tunnel %s", tunnelID)
 			}
@@ -672,6 +895,7 @@ func (r *c02run) closeAction(e *c02end, act int) {
 		r.remainAtClose = (len(r.a.send) - r.b.recv) + (len(r.b.send) - r.a.recv)
 		r.tail = true
 	}
+	r.maybeStallStore()
 	if e.recv < len(e.expect) {
 		r.w.Fault("early-" + c02ActNames[act])
 	} else {
@@ -766,6 +990,22 @@ func (r *c02run) reader(e *c02end) {
 		}
 		if e.closedAt >= 0 && !e.half {
 			return
+		}
+		if e.stallFor > 0 && !e.stalled && e.recv >= e.stallAfter {
+			// fault: this consumer stops reading for a while
+			e.stalled, e.stallStart = true, w.Now()
+			w.Fault("stalled-consumer")
+			tm := time.NewTimer(e.stallFor)
+			select {
+			case <-tm.C:
+			case <-r.doneCh:
+				tm.Stop()
+			}
+			w.Yield("c02.stall.wake")
+			e.stallEnd = w.Now()
+			if e.closedAt >= 0 && !e.half {
+				return
+			}
 		}
 		sz := e.rplan.sizes[i%len(e.rplan.sizes)]
 		if e.pol.kind == c02OnRecv && e.closedAt < 0 && e.pol.k-e.recv < sz {
